@@ -69,6 +69,48 @@ theorem spec_guards_sound : Guards.spec.Sound where
   vmExp := by intro e t; simp [Guards.spec]
   blockExp := by intro e t; simp [Guards.spec]
 
+/-! ### timeout conversion and iterator guards (translated from the source) -/
+
+/-- **Seconds → nanoseconds is exact**: for every `int` number of seconds `0 ≤ t ≤ INT_MAX` the value that
+    `yr_scanner_set_timeout` (as translated from scanner.c, with C's integer conversions and wrap-around) stores in
+    the 64-bit `timeout` field is `t * 10^9` — no intermediate 32-bit product, no sign extension, no wrap. -/
+theorem timeout_conversion_exact (t : Int) (h0 : 0 ≤ t) (h1 : t ≤ 2147483647) :
+    timeoutField timeoutExpr t = some (specTimeoutNs t) := by
+  have e32 : (2 : Int) ^ 32 = 4294967296 := by decide
+  have e64 : (2 : Int) ^ 64 = 18446744073709551616 := by decide
+  have m32 : t % 4294967296 = t := Int.emod_eq_of_lt h0 (by omega)
+  have m64 : t % 18446744073709551616 = t := Int.emod_eq_of_lt h0 (by omega)
+  have p64 : t * 1000000000 % 18446744073709551616 = t * 1000000000 := Int.emod_eq_of_lt (by omega) (by omega)
+  have hs : ¬ (t ≥ 4294967296 / 2) := by omega
+  have hs' : ¬ (2147483648 ≤ t) := by omega
+  simp [timeoutField, timeoutExpr, CExpr.eval, CExpr.eval.arith, CTy.common, CTy.wrap, CTy.bits, CTy.signed, specTimeoutNs, e32, e64,
+    m32, m64, p64, hs']
+
+example : timeoutField timeoutExpr 3 = some 3000000000 ∧ timeoutField timeoutExpr 2147483647 = some 2147483647000000000 := by decide
+
+/-- what the 32-bit variant (`(uint64_t)(t > 0 ? t * 1000000000 : 0)`) would store for 3 s: the model exhibits the wrap -/
+example : timeoutField (.cast .u64 (.cond (.gt .var (.lit 0 .i32)) (.mul .var (.lit 1000000000 .i32)) (.lit 0 .i32))) 3
+    = some 18446744072414584320 := by decide
+
+/-- **One guard, several writes**: an iterator `next` function whose guard asks for `guardK + 1 ≥ maxPushes` free slots
+    writes only inside the stack whenever it proceeds — for every stack pointer and capacity. -/
+theorem iter_push_in_bounds (e : IterFn) (hc : e.guardCmp = .ge) (hk : e.maxPushes ≤ e.guardK + 1) (sp cap : Nat)
+    (hp : e.proceeds sp cap = true) : e.inBounds sp cap := by
+  simp [IterFn.proceeds, hc, Cmp.eval] at hp
+  simp [IterFn.inBounds]; omega
+
+/-- … and the guard is not stricter than needed: with `maxPushes = guardK + 1` it refuses exactly when the slots do
+    not fit (so ERROR_EXEC_STACK_OVERFLOW is raised exactly when the capacity would be exceeded). -/
+theorem iter_guard_exact (e : IterFn) (hc : e.guardCmp = .ge) (hk : e.maxPushes = e.guardK + 1) (sp cap : Nat) :
+    e.proceeds sp cap = true ↔ e.inBounds sp cap := by
+  simp [IterFn.proceeds, IterFn.inBounds, hc, Cmp.eval]; omega
+
+/-- **Every iterator of exec.c satisfies the hypotheses** (table regenerated from the source: guard constant, operator
+    and the maximum number of `stack->items[stack->sp++]` writes on any path of each `iter_*_next`). -/
+theorem gen_iter_table_sound : iterTable ≠ [] ∧ ∀ e ∈ iterTable, e.guardCmp = .ge ∧ e.maxPushes = e.guardK + 1 := by decide
+
+example : (⟨"iter_dict_next", 1, .ge, 3⟩ : IterFn).proceeds 1 3 = true ∧ ¬ (⟨"iter_dict_next", 1, .ge, 3⟩ : IterFn).inBounds 1 3 := by decide
+
 variable {G : Guards} (hG : G.Sound)
 include hG
 set_option linter.unusedSectionVars false
@@ -396,5 +438,6 @@ theorem timeout_detected (elapsed timeout : Nat) :
   ⟨hG.vmExp elapsed timeout, hG.blockExp elapsed timeout⟩
 
 example : vmReads Guards.spec 10 0 25 = 2 ∧ vmReads Guards.spec 10 9 1 = 1 ∧ blockReads 8 1 8 = 1 ∧ blockReads 8 0 17 = 3 := by decide
+
 
 end YaraModel.Limits
